@@ -149,7 +149,10 @@ impl ProtoCtx {
                     }
                 }
             }
+            #[cfg(has_is_canonical)]
             ("is_canonical", 2) => format!("{}", rln::utils::is_canonical_fr_bytes_le(&parse_bytes(w[1])?)),
+            #[cfg(not(has_is_canonical))]
+            ("is_canonical", 2) => "n/a".to_string(),      // the helper does not exist in this tree: the verification streams carry the check
             ("de_fr", 2) => {
                 let b = parse_bytes(w[1])?;
                 let (v, n) = bytes_le_to_fr(&b);
